@@ -7,7 +7,10 @@
 class CartesianR6_SonnendruckerGyro_CzarnyGeometry : public SourceTerm
 {
 public:
-    CartesianR6_SonnendruckerGyro_CzarnyGeometry() = default;
+    CartesianR6_SonnendruckerGyro_CzarnyGeometry()
+    {
+        initializeGeometry();
+    }
     explicit CartesianR6_SonnendruckerGyro_CzarnyGeometry(const double& Rmax,
                                                           const double& inverse_aspect_ratio_epsilon,
                                                           const double& ellipticity_e);
